@@ -458,6 +458,48 @@ def p1_truthful_flags(ctx: Ctx):
                     ctx.ok(rel, ret, q, construct)
 
 
+def t7_saturation_value(ctx: Ctx):
+    """An overflow under SATURATE (or under OVERFLOW where the mode does not round to the infinity) becomes the end of
+    the range on its side -- for either sign.  The public `maxval(True)` refuses a range without negative values (there
+    is no largest negative value), so asked from the overflow arm it turns `round(-3)` under an unsigned format into a
+    ValueError.  In every bounded fixed-point context the saturating arms take their value from a helper that, read from
+    its source, answers zero's side for a one-sided range and the public extreme otherwise."""
+    from ..minipy import Interp, Obj
+    n = 0
+    for rel, cname, c in context_classes(ctx.repo):
+        fn = own_method(c, '_round_at')
+        refusing = [m for _, k in ctx.repo.classes(rel) for m in k.body if isinstance(m, ast.FunctionDef) and m.name == 'maxval'
+                    and any(isinstance(s, ast.Raise) and 'ValueError' in norm(s) for s in ast.walk(m))]
+        if fn is None or not refusing:
+            continue                # every range of this family has both signs: maxval answers for either
+        q = f'{cname}._round_at'
+        arms = [cs for m in ast.walk(fn) if isinstance(m, ast.Match) and norm(m.subject) == 'self.overflow' for cs in m.cases
+                if any(x in norm(cs.pattern) for x in ('SATURATE', 'OverflowMode.OVERFLOW'))]
+        if not arms:
+            raise ShapeError(f'{q}: overflow arms not found')
+        direct = [k for a in arms for k in ast.walk(a) if isinstance(k, ast.Call) and call_name(k) == 'self.maxval' and (k.args or k.keywords)]
+        n += 1
+        ctx.check(not direct, rel, direct[0] if direct else fn, q, 'the saturating arms do not ask `maxval`, which refuses a sign the range lacks',
+                  'FixedContext(False, 0, 8, RNE, SATURATE).round(-3) raises "negative values are not representable" instead of returning 0 with overflow set')
+        helpers = {call_name(st.value).split('.')[1] for a in arms for st in ast.walk(a) if isinstance(st, ast.Assign) and isinstance(st.value, ast.Call) and norm(st.targets[0]) == 'result'
+                   and (call_name(st.value) or '').startswith('self._') and own_method(c, (call_name(st.value) or '').split('.')[1]) is not None and len(st.value.args) == 1}
+        for h in sorted(helpers):
+            hf = own_method(c, h)
+            for neg_is_negative in (False, True):
+                zero = Obj('RealFloat', s=False, is_negative=lambda v=neg_is_negative: v)
+                me = Obj(cname, neg_maxval=zero, enable_neg_zero=False)
+                it = Interp({}, {}, self_obj=me, overrides={'Float': lambda **k: Obj('Float', **k), 'self.maxval': lambda s=False: ('maxval', s)})
+                got = it.call_function(hf, [True], bound_self=True)
+                n += 1
+                if neg_is_negative:
+                    ctx.check(got == ('maxval', True), rel, hf, f'{cname}.{h}', 'a range with negative values saturates a negative overflow to its negative extreme', f'got {got!r}')
+                else:
+                    ok = isinstance(got, Obj) and got.kind == 'Float' and got.fields.get('x') is zero and got.fields.get('ctx') is me
+                    ctx.check(ok, rel, hf, f'{cname}.{h}', 'a range without negative values saturates a negative overflow to its lower end (zero), tagged with the context', f'got {got!r}')
+    if n < 2:
+        raise ShapeError(f'only {n} saturation sites examined')
+
+
 def p4_flags_of_this_rounding(ctx: Ctx):
     """The flags of a result describe *this* rounding.  A result `Float(x=v, ctx=self)` takes its flags from `v`; that is
     right when `v` comes out of the rounding call of this method (RealFloat.round computes them) and wrong when `v` is
@@ -769,20 +811,25 @@ def f1b_result_tagged(ctx: Ctx):
     """Every value a context's _round_at returns is constructed under that context."""
     repo = ctx.repo
 
-    def tagged(e, fn, depth=0) -> bool:
+    def tagged(e, fn, depth=0, own=None) -> bool:
         if isinstance(e, ast.Call):
             cn = call_name(e) or ''
             if cn == 'Float' or cn.startswith('Float.'):
                 return dotted(kwarg(e, 'ctx')) == 'self'
             if cn.startswith('self.') and cn.split('.')[1] in SELF_FACTORIES:
                 return True
+            if own and cn.startswith('self.') and cn.split('.')[1] in own and depth < 3:
+                # a helper of the class: tagged when every value it returns is
+                m = own[cn.split('.')[1]]
+                rets = [n for n in walk_no_nested(m) if isinstance(n, ast.Return)]
+                return bool(rets) and all(r.value is not None and tagged(r.value, m, depth + 1, own) for r in rets)
             if isinstance(e.func, ast.Attribute) and e.func.attr == '_with_flags':
-                return tagged(e.func.value, fn, depth)
+                return tagged(e.func.value, fn, depth, own)
             return False
         if isinstance(e, ast.Name) and depth < 3:
             assigns = [s.value for s in walk_no_nested(fn) if isinstance(s, ast.Assign)
                        and any(isinstance(t, ast.Name) and t.id == e.id for t in s.targets)]
-            return bool(assigns) and all(tagged(v, fn, depth + 1) for v in assigns)
+            return bool(assigns) and all(tagged(v, fn, depth + 1, own) for v in assigns)
         return False
 
     for rel, cname, c in context_classes(repo):
@@ -795,7 +842,8 @@ def f1b_result_tagged(ctx: Ctx):
             if r.value is None:
                 ctx.bad(rel, r, q, norm(r), 'returns nothing')
                 continue
-            ctx.check(tagged(r.value, fn), rel, r, q, norm(r),
+            own = {m.name: m for m in c.body if isinstance(m, ast.FunctionDef) and m.name.startswith('_')}
+            ctx.check(tagged(r.value, fn, 0, own), rel, r, q, norm(r),
                       'the returned value is not constructed with ctx=self: membership in the format is not recorded')
     # EFloatContext re-tags the value produced by its inner bounded context
     rel = CTXDIR + 'efloat.py'
@@ -1097,6 +1145,7 @@ RULES = [
     Rule('C01.T5', 'NaN/infinity arms of each _round_at: enabled -> special, no substitute -> raise, substitute -> value', t5_special_arms, 30, 'T,S'),
     Rule('C01.X1', 'every match over a rounding enum is exhaustive or refuses; unhandled overflow modes rejected at construction', x1_enum_exhaustive, 14, 'X'),
     Rule('C01.P1', 'every path from an out-of-range test to a return sets overflow and inexact on the returned value', p1_truthful_flags, 4, 'P'),
+    Rule('C01.T7', 'the value an overflow saturates to is defined for both signs (a range without negative values saturates to zero)', t7_saturation_value, 2, 'T'),
     Rule('C01.P4', 'the flags of a result are those of this rounding: a re-wrapped value comes out of the rounding call, or the result states its flags', p4_flags_of_this_rounding, 8, 'P'),
     Rule('C01.P1b', 'EFloatContext._fixup replacements carry the flags of the rounded value', p1b_fixup_keeps_flags, 7, 'P'),
     Rule('C01.P2', 'NaN, infinity and zero are taken out on every path before RealFloat.round', p2_specials_first, 15, 'P,S'),
@@ -1124,6 +1173,9 @@ _EF = CTXDIR + 'efloat.py'
 _EXP = CTXDIR + 'exponential.py'
 
 MUTANTS = [
+    Mutant('negative-overflow-of-an-unsigned-range-raises', CTXDIR + 'mpb_fixed.py', "                case OverflowMode.SATURATE:\n                    result = self._bound(xr.s)", "                case OverflowMode.SATURATE:\n                    result = self.maxval(s=xr.s)", 'C01.T7',
+           'finding F93 before its repair: FixedContext(False, 0, 8, RNE, SATURATE).round(-3) raises ValueError'),
+    Mutant('lower-end-untagged', CTXDIR + 'mpb_fixed.py', "            return Float(x=self.neg_maxval, s=self.enable_neg_zero and self.neg_maxval.s, ctx=self)", "            return Float(x=self.neg_maxval, s=self.enable_neg_zero and self.neg_maxval.s)", 'C01.T7'),
     Mutant('real-rounding-keeps-the-operand-flags', CTXDIR + 'real.py', "        return Float(\n            x=xr, ctx=self,\n            invalid=False, divzero=False, overflow=False,\n            tiny_pre=False, tiny_post=False, inexact=False, carry=False,\n        )",
            "        return Float(x=xr, ctx=self)", 'C01.P4', 'finding F78 before its repair: REAL.round(FP16.round(0.1)).inexact is True'),
     Mutant('member-of-this-context-returned-as-it-is', CTXDIR + 'mp_float.py', "        # step 3. round value based on rounding parameters\n", "        if isinstance(x, Float) and x.ctx is self:\n            return Float(x=xr, ctx=self)\n        # step 3. round value based on rounding parameters\n", 'C01.P4',
@@ -1172,9 +1224,9 @@ MUTANTS = [
            "        if overflow == OverflowMode.WRAP:\n            raise ValueError('OverflowMode.WRAP is not supported for MPBFloatContext')\n",
            '', 'C01.X1', 'WRAP then fails only when a value overflows'),
     Mutant('saturate-arm-dropped', _MPBX,
-           '                case OverflowMode.SATURATE:\n                    result = self.maxval(s=xr.s)\n', '', 'C01.X1'),
+           '                case OverflowMode.SATURATE:\n                    result = self._bound(xr.s)\n', '', 'C01.X1'),
     Mutant('inexact-not-flagged-on-overflow', _MPBF, '            result._real._flags._set_inexact(True)\n', '', 'C01.P1'),
-    Mutant('saturate-returns-early', _MPBX, 'result = self.maxval(s=xr.s)', 'return self.maxval(s=xr.s)', 'C01.P1'),
+    Mutant('saturate-returns-early', _MPBX, '                case OverflowMode.SATURATE:\n                    result = self._bound(xr.s)', '                case OverflowMode.SATURATE:\n                    return self._bound(xr.s)', 'C01.P1'),
     Mutant('exp-underflow-flag-other-object', _EXP,
            "            result._real._flags._set_overflow(True)\n            result._real._flags._set_inexact(True)\n            return result\n\n        elif",
            "            result._real._flags._set_inexact(True)\n            return result\n\n        elif", 'C01.P1'),
